@@ -86,13 +86,52 @@ def main(argv=None):
             bounded.append(fn(tier, seed))
         except Exception as e:
             bounded.append({"name": name, "status": "error", "detail": traceback.format_exc()[-1500:]})
-    return report(prop, tier, seed, results, bounded, kf, known_by_id, time.time() - t0, a)
+    selftest = run_selftest(prop) if (tier == "thorough" and not a.unit and not os.environ.get("VERIF_NO_SELFTEST")) else None
+    return report(prop, tier, seed, results, bounded, kf, known_by_id, time.time() - t0, a, selftest)
 
 
 PROP_META = {f"C{i:02d}": {} for i in range(1, 21)}
 
 
-def report(prop, tier, seed, results, bounded, kf, known_by_id, wall, a):
+def run_selftest(prop):
+    """thorough tier: the check is run against scratch copies of the CURRENT /repo tree with (a) every stored seeded change for this property applied —
+    each must be reported as a VIOLATION — and (b) every stored behaviour-preserving patch that touches a file this property's units read — each must
+    stay green.  Nothing under /repo is modified; copies live under .tmp and are removed."""
+    import subprocess, shutil, tempfile, glob
+    from pyvc.world import REPO
+    out = {"seeded": [], "harmless": []}
+    def run_on(patch, expect):
+        d = tempfile.mkdtemp(dir=os.environ["TMPDIR"])
+        try:
+            shutil.copytree(os.path.join(REPO, "gscrib"), os.path.join(d, "gscrib"))
+            p = subprocess.run(["patch", "-p1", "-s", "-d", d, "-i", patch], capture_output=True, text=True)
+            if p.returncode != 0: return {"patch": patch, "result": "patch does not apply to the current tree (skipped)"}
+            env = dict(os.environ, GSCRIB_REPO=d, VERIF_NO_SELFTEST="1")
+            r = subprocess.run([sys.executable, "-m", "pyvc.runner", prop, "--tier", "quick", "--no-evidence"], cwd=ROOT, env=env, capture_output=True, text=True)
+            viol = [l for l in r.stdout.splitlines() if l.startswith("VIOLATION")]
+            return {"patch": os.path.relpath(patch, ROOT), "exit": r.returncode, "violations": len(viol), "first": (viol[0][:200] if viol else ""), "as_expected": r.returncode == expect}
+        finally:
+            shutil.rmtree(d, ignore_errors=True)
+    for m in sorted(glob.glob(os.path.join(ROOT, "seeded", "*", "meta.json"))):
+        meta = load_json(m, {})
+        if meta.get("property") == prop: out["seeded"].append(run_on(os.path.join(os.path.dirname(m), "patch.diff"), 1))
+    touched = SELFTEST_FILES.get(prop, [])
+    for m in sorted(glob.glob(os.path.join(ROOT, "harmless", "*", "meta.json"))):
+        meta = load_json(m, {})
+        if any(any(t in f for t in touched) for f in meta.get("files", [])): out["harmless"].append(run_on(os.path.join(os.path.dirname(m), "patch.diff"), 0))
+    return out
+
+
+SELFTEST_FILES = {
+    "C01": ["gcode_core", "gcode_builder", "gcode_state", "bounds", "point"], "C02": ["gcode_builder", "gcode_state"], "C03": ["gcode_builder", "gcode_state", "bounds", "point"],
+    "C04": ["transform", "gcode_core", "point"], "C05": ["gcode_builder", "gcode_core", "gcode_state", "bounds"], "C06": ["gcode_builder", "gcode_state"], "C07": ["gcode_builder", "gcode_state"],
+    "C08": ["default_formatter"], "C09": ["default_formatter"], "C10": ["tracer", "direction"], "C11": ["tracer", "gcode_core"], "C12": ["tracer", "gcode_builder"],
+    "C13": ["transformer", "transform"], "C14": ["gcode_core", "file_writer"], "C15": ["printcore"], "C16": ["printrun_writer", "printcore"], "C17": ["device"],
+    "C18": ["printrun_writer"], "C19": ["heightmap"], "C20": ["gcode_builder", "extrusion_hook"],
+}
+
+
+def report(prop, tier, seed, results, bounded, kf, known_by_id, wall, a, selftest=None):
     os.makedirs(os.path.join(ROOT, "evidence"), exist_ok=True)
     os.makedirs(os.path.join(ROOT, "replays"), exist_ok=True)
     import re as _re
@@ -118,8 +157,10 @@ def report(prop, tier, seed, results, bounded, kf, known_by_id, wall, a):
         for q, fs in sorted(writers.items()):
             if q.endswith(".__init__"): continue          # constructors: covered by the ground Init obligation
             covered = q in functions
+            # a unit that could not be executed (Unsupported construct) leaves its functions unlisted: that is undecided, not a closure violation
+            status = "discharged" if covered else ("undecided" if errors else "violated")
             obls.append({"name": f"closure/{q} stores to {','.join(fs)} and is under contract", "kind": "closure", "props": [prop], "backend": "ast-scan", "seconds": 0.0,
-                         "where": q, "exit": None, "status": "discharged" if covered else "violated",
+                         "where": q, "exit": None, "status": status, "reason": "" if covered else "the function was not reached because a unit could not be executed",
                          "replay": None if covered else {"reproduced": False, "detail": f"{q} writes the tracked field(s) {fs} but no unit executes it: the history invariant is not closed under the API"}})
     violations, undecided, engine = [], [], []
     names = set()
@@ -169,6 +210,12 @@ def report(prop, tier, seed, results, bounded, kf, known_by_id, wall, a):
     if code == 1:
         for u, e in errors: lines.append(f"NOTE undecided unit {u}: {e[:600]}")
         for o in undecided: lines.append(f"NOTE undecided {o['name']}: {o.get('reason', '')}")
+    if selftest:
+        miss = [x for x in selftest["seeded"] if x.get("as_expected") is False]; fa = [x for x in selftest["harmless"] if x.get("as_expected") is False]
+        lines.append(f"SELFTEST seeded changes detected {len([x for x in selftest['seeded'] if x.get('as_expected')])}/{len([x for x in selftest['seeded'] if 'as_expected' in x])}, "
+                     f"behaviour-preserving patches green {len([x for x in selftest['harmless'] if x.get('as_expected')])}/{len([x for x in selftest['harmless'] if 'as_expected' in x])}")
+        for x in miss: lines.append(f"SELFTEST-MISS {x['patch']} (exit {x['exit']})")
+        for x in fa: lines.append(f"SELFTEST-FALSE-ALARM {x['patch']} (exit {x['exit']}) {x['first']}")
     for l in lines: print(l)
     level = LEVELS.get(prop, "proof")
     backends = {}
@@ -191,6 +238,7 @@ def report(prop, tier, seed, results, bounded, kf, known_by_id, wall, a):
         "canaries_refuted": len([o for o in obls if o["kind"] == "canary" and o["status"] == "discharged"]),
         "known_findings_confirmed": sorted(k for k in known_present if prop in known_by_id.get(k, {}).get("properties", [known_by_id.get(k, {}).get("property")])),
         "bounded": bounded,
+        "selftest": selftest if selftest is not None else "thorough tier only",
         "undecided": [o["name"] for o in undecided], "unit_errors": [u for u, _ in errors],
         "samples": samples,
         "evaluations": len(obls), "distinct_nontrivial": len(names),
